@@ -23,7 +23,7 @@ PROPERTY = "C05"
 explorer.PROP = PROPERTY
 
 BEHAVIOURS = ["ret", "read", "httpexc", "exc", "timeout", "stream3", "park", "none", "readpark",
-              "stream-httpexc", "prepare-httpexc", "stream-exc", "stream-other", "stream-noeof"]
+              "stream-httpexc", "prepare-httpexc", "stream-exc", "stream-other", "stream-noeof", "reuse"]
 MIDFAIL = ("stream-httpexc", "prepare-httpexc", "stream-exc", "stream-other")
 
 
@@ -78,6 +78,7 @@ class Scen:
         self.loop = loop
         self.problems = []
         self.parked = {}
+        self.shared_resp = None
         self.seen = []           # request ids the handler was entered for, in order
         self.stream = case["stream"]
         self.beh = case["behaviours"]
@@ -135,6 +136,11 @@ class Scen:
             if b == "stream-noeof":
                 return resp
             raise web.HTTPForbidden(headers=hdr)
+        if b == "reuse":
+            # the application keeps one response object and returns it for every request
+            if self.shared_resp is None:
+                self.shared_resp = web.Response(text="shared")
+            return self.shared_resp
         if b in ("park", "readpark"):
             if b == "readpark":
                 await request.read()
@@ -339,6 +345,7 @@ def cases(quick):
     for nm, mk in (("cl", upb), ("chunked", upc)):
         for beh in ("ret", "read", "park"):
             out.append({"name": f"upgrade-body-{nm}-declined-{beh}", "stream": mk(0) + req(1) + req(2, "post"), "behaviours": [beh, "ret", "read"], "faults": F})
+    out.append({"name": "reuse-response-object", "stream": req(0) + req(1) + req(2), "behaviours": ["reuse"], "faults": F})
     out.append({"name": "post-unread-then-2", "stream": req(0, "post") + req(1) + req(2), "behaviours": ["ret"], "faults": F})
     out.append({"name": "park-first-of-3", "stream": pipe(3), "behaviours": ["park", "ret", "read"], "faults": F})
     # around the queue limit
